@@ -511,6 +511,8 @@ def r3_loops(body, loops, log):
                 j += 1
             edits.append((j, j, '\n%s\n' % inv.rstrip()))
             log.append('R3 %s #%d: invariant inserted' % (kind, idx))
+        elif kind == 'ret':
+            continue
         else:
             raise LostAnchor('bad loop key %s' % key)
     edits.sort(reverse=True)
@@ -653,6 +655,83 @@ def r4_never_loop(body, log, spec_text=''):
         return body[:m.start()] + 'let %s;\n loop %s {' % (var, spec_text) + new_inner + '}\n Ok(%s)' % var + body[k + 1:]
 
 
+def r4_return_ok_loops(body, log, specs):
+    """R4r: every `return Ok('l: loop { .. break 'l E; .. })` (a labelled never-loop used as an expression, breaks may sit in
+    nested for loops) -> `{ let verif_loop_value_k; 'l: loop <spec_k> { .. { verif_loop_value_k = E; break 'l; } .. } return Ok(verif_loop_value_k); }`"""
+    k = 0
+    pos = 0
+    while True:
+        mask = code_mask(body)
+        m = None
+        for mm in re.finditer(r"\breturn\s+Ok\s*\(\s*('\w+)\s*:\s*loop\s*\{", body):
+            if mask[mm.start()] and mm.start() >= pos:
+                m = mm
+                break
+        if m is None:
+            break
+        label = m.group(1)
+        open_ = m.end() - 1
+        close = match_close(body, mask, open_)
+        inner = body[open_ + 1:close]
+        imask = code_mask(inner)
+        var = 'verif_loop_value_%d' % k
+        out = []
+        last = 0
+        count = 0
+        for bm in re.finditer(r'\bbreak\b', inner):
+            if not imask[bm.start()]:
+                continue
+            j = bm.end()
+            depth = 0
+            while j < len(inner):
+                if imask[j]:
+                    c = inner[j]
+                    if c in '([{':
+                        depth += 1
+                    elif c in ')]}':
+                        depth -= 1
+                    elif c == ';' and depth == 0:
+                        break
+                j += 1
+            expr = inner[bm.end():j].strip()
+            if not expr.startswith(label):
+                if not expr:
+                    continue
+                raise LostAnchor('R4r precondition: `break` with a value but without the loop label')
+            expr = expr[len(label):].strip()
+            if not expr:
+                raise LostAnchor('R4r precondition: labelled `break` without value')
+            out.append(inner[last:bm.start()])
+            out.append('; { %s = %s; break %s; }' % (var, expr, label))
+            last = j + 1
+            count += 1
+        out.append(inner[last:])
+        if count == 0:
+            raise LostAnchor('R4r precondition: no labelled break in loop')
+        kk = close + 1
+        while body[kk] in ' \t\n':
+            kk += 1
+        if body[kk] != ')':
+            raise LostAnchor("R4r: `return Ok('l: loop {..}` not followed by `)`")
+        kk += 1
+        while kk < len(body) and body[kk] in ' \t\n':
+            kk += 1
+        if kk < len(body) and body[kk] == ';':
+            kk += 1
+        spec_text = specs.get('ret:%d' % k)
+        if spec_text is None:
+            raise LostAnchor('R4r: no `@never_loop ret:%d` section for the loop' % k)
+        new = '{ let %s;\n %s: loop %s {' % (var, label, spec_text) + ''.join(out) + '}\n return Ok(%s); }' % var
+        body = body[:m.start()] + new + body[kk:]
+        pos = m.start() + len(new)
+        log.append("R4r `return Ok(%s: loop {..})` #%d: %d `break %s E;` -> `{ %s = E; break %s; }`, then `return Ok(%s)`" % (label, k, count, label, var, label, var))
+        k += 1
+    for key in specs:
+        if int(key.split(':')[1]) >= k:
+            raise LostAnchor('R4r: loop #%s not found' % key)
+    return body
+
+
 def r7_mut_self(sig, body, log):
     if re.search(r'\(\s*mut\s+self\b', sig):
         sig = re.sub(r'\(\s*mut\s+self\b', '(self', sig, count=1)
@@ -785,6 +864,10 @@ def emit_fn(srcobj, name, impl=None, nth=0, contract='', loops=None, never_loop=
         sig, body = r7_mut_self(sig, body, log)
         if never_loop is not None:
             body = r4_never_loop(body, log, never_loop)
+        ret_specs = dict((k, v) for (k, v) in (loops or {}).items() if k.startswith('ret:'))
+        if ret_specs:
+            body = r4_return_ok_loops(body, log, ret_specs)
+            loops = dict((k, v) for (k, v) in loops.items() if not k.startswith('ret:'))
         body = r3_loops(body, loops, log)
         body = insert_proofs(body, proofs, log)
         if prologue and prologue.strip():
